@@ -1,4 +1,4 @@
-import GoDcp.Driver.Pure
+import GoDcp.Driver.All
 
 open GoDcp.Driver
 
@@ -10,7 +10,7 @@ def handle (line : String) : String :=
   match toks op with
   | [] => "bad-op\t-"
   | c :: args =>
-    match pureHandlers.lookup c with
+    match allHandlers.lookup c with
     | none => "bad-op\t-"
     | some h => match h args real with
       | none => "bad-op\t-"
